@@ -32,8 +32,17 @@ RULE = (
     "structure (diagonal / antidiagonal / one-hot column / COPY / zero / scalar tensors), stored exponent in "
     "{0,1,2,3,-1,-2}, outer labels either inferred or an explicit random subset that may contain bonds and hyper labels; "
     "each network goes through every integer-preserving pass. Finder stream: arrays of rank 0-4 with the same planted "
-    "patterns. Oracle stream: float/complex tree and loopy networks through every QR/SVD based pass. Non-trivial: the "
-    "pass changed the network (labels, shapes, data or exponent); distinct = distinct (network, pass)."
+    "patterns. Wire stream: operator / circuit-like integer networks - 1-3 wires (d 2-3), one- and two-wire tensors "
+    "(diagonal, antidiagonal, generalised permutation, controlled, swap, lone entry, dense) in every index order, stored in "
+    "time / reversed / shuffled order, wire ends open on BOTH sides (operators), closed by (basis) vectors or traced; outer "
+    "labels inferred by the harness, inferred by the pass (output_inds=None), outer + bonds, or a random subset; through "
+    "antidiag_gauge, diagonal_reduce, column_reduce, rank_simplify, the three structure passes in random order sharing one "
+    "cache, full_simplify sequences. Every antidiag_gauge / diagonal_reduce / column_reduce call made by any pass in any "
+    "stream is traced (finder answer as labels -> action) and compared with the Coq decision model. Circuit stream (test): "
+    "unitaries, states and partial amplitudes of random 1-3 qubit quimb Circuits (diagonal, antidiagonal, permutation and "
+    "dense gates, every lazy gate layout). Oracle stream: float/complex tree and loopy networks through every QR/SVD based "
+    "pass. Non-trivial: the pass changed the network (labels, shapes, data or exponent) / the traced call acted; distinct = "
+    "distinct (network, pass)."
 )
 
 TOL = 1e-9
@@ -2382,7 +2391,11 @@ def run(ctx):
         "the dumped arrays of the implementation's network before and after each pass (same_value_expr)",
         "hand model of the three structure finders (coq/C04/Model.v), tied by exact correspondence on generated arrays and "
         "by a direct numpy oracle; abs(val) > atol is modelled as val != 0 (exact integer data, default atol)",
-        "modelled, not verified: the strategy of each pass (queues, caches, cost heuristics, which pairs are tried) - the "
+        "hand model of the decision rules of antidiag_gauge / diagonal_reduce / column_reduce (Model.v: ag_choose, ag_decisions, "
+        "dr_choose, cr_choose), tied by a run-time trace: spies on the finders (labels read from the local `t` of the pass's "
+        "frame, cross-checked by identity of its data) and on TensorNetwork.flip / reindex / isel called from those passes",
+        "modelled, not verified: the strategy of the other passes (queues, caches, cost heuristics, which pairs are tried; for "
+        "the three structure passes: the visit order and the cache, which the pass theorems quantify over) - the "
         "theorems say that any sequence of the primitives is sound, the correspondence checks each pass end to end; "
         "QR/SVD/eigh/inverse/norm routines enter the theorems only as hypotheses (A^T B = 1, a = q.M, t = ten(d).t') and "
         "are validated numerically in the oracle stream (tests, tolerance 1e-9); cotengra's execution of a contraction",
